@@ -80,7 +80,7 @@ def eval_case(case):
     else:
         amb = {'nonnumeric'}
     inp = mk_input(toks, form)
-    if not toks:
+    if not toks or (form == 'str' and all(t == '' for t in toks) and len(toks) == 1):
         for e in ('', []):
             r = parse_graphic_sequence(e, ae)
             if [str(x) for x in r] != ['0']:
